@@ -146,3 +146,40 @@ def read_cell(model, term, r, c, depth=0):
         from .normal import num
         return num(1.0 if r == c else 0.0)
     return None
+
+
+def port_closure(model, roots, modules=(PORT_MOD, 'basic_robotics.general.faser_high_performance')):
+    """Transitive callee closure (by bare function name) of the given kernel names inside the JIT modules."""
+    funcs = {}
+    for mn in modules:
+        if mn in model.modules:
+            for name, node in toplevel_funcs(model.modules[mn].tree).items():
+                funcs.setdefault(name, node)
+    seen, work = set(), [r for r in roots if r in funcs]
+    while work:
+        n = work.pop()
+        if n in seen:
+            continue
+        seen.add(n)
+        for c in ast.walk(funcs[n]):
+            if isinstance(c, ast.Call):
+                nm = c.func.id if isinstance(c.func, ast.Name) else (c.func.attr if isinstance(c.func, ast.Attribute) else None)
+                if nm in funcs and nm not in seen:
+                    work.append(nm)
+    return seen
+
+
+def kernel_roots_called_from(model, func_infos):
+    """Names of JIT-module functions called (as mr.X / fmr.X / bare X) from the given FuncInfos."""
+    funcs = set()
+    for mn in (PORT_MOD, 'basic_robotics.general.faser_high_performance'):
+        if mn in model.modules:
+            funcs |= set(toplevel_funcs(model.modules[mn].tree))
+    out = set()
+    for fi in func_infos:
+        for c in ast.walk(fi.node):
+            if isinstance(c, ast.Call):
+                nm = c.func.attr if isinstance(c.func, ast.Attribute) else (c.func.id if isinstance(c.func, ast.Name) else None)
+                if nm in funcs:
+                    out.add(nm)
+    return out
